@@ -97,6 +97,19 @@ func (m *MMap) Size() (int64, error) {
 	return m.virtualSize, nil
 }
 
+func (m *MMap) Truncate(size int64) error {
+	if size < 0 || size > m.virtualSize {
+		return fmt.Errorf("invalid truncate size %d, current size %d", size, m.virtualSize)
+	}
+	// 清除被截断的残留数据, 虚拟大小回退后新数据从该位置继续写入
+	if err := m.remap(size, int(m.virtualSize-size)); err != nil {
+		return err
+	}
+	clear(m.activeMap[size:m.virtualSize])
+	m.virtualSize = size
+	return nil
+}
+
 func (m *MMap) ResetFileSize() error {
 	return m.file.Truncate(m.virtualSize)
 }
